@@ -142,6 +142,19 @@ theorem C20_shutdown_terminates (ts ts' : List Th) (s : St) (hr : Reach (sys tru
       (((∃ i, t = .wk i) ∨ ((∃ c, t = .sd c .body) ∧ s.sd ≠ .done)) → termM s' < termM s) :=
   step_term (inv_reach hr).1 hst hnr hs
 
+/-- **No `WaitGroup.Add` once a `Wait` can be in progress** (the misuse panics of `sync.WaitGroup` — "Add called
+concurrently with Wait", "reused before previous Wait has returned" — are unreachable): the per-order WaitGroups are waited
+on only at the program points `waitMid` / `waitLast` of `stopWorkers`, which are reached only with the stopped flag set;
+and in every reachable state with the flag set no step of any thread increments a WaitGroup counter (`Add` is called only
+by `runBackgroundWorker`, under the lock, by callers that found the flag not set under the same lock; `Run` no longer
+waits on these WaitGroups). -/
+theorem C20_no_waitgroup_add_after_stop (ts ts' : List Th) (s : St) (hr : Reach (sys true true) (init, ts) (s, ts')) :
+    (∀ p, ((∃ todo, s.sd = .waitMid p todo) ∨ s.sd = .waitLast p) → s.stopped = true) ∧
+      (s.stopped = true → ∀ (t t' : Th) (s' : St), (s', t') ∈ step true true s t → ∀ o, s'.wgc o ≤ s.wgc o) := by
+  have hA := (inv_reach hr).1
+  refine ⟨?_, fun hst t t' s' hs => step_noadd hA hst hs⟩
+  rintro p (⟨todo, h⟩ | h) <;> exact hA.stopped_iff.mpr (by simp [h])
+
 /-! ## The registry of a running daemon and `GetRunningBackgroundWorkers` -/
 
 /-- **What `GetRunningBackgroundWorkers` returns is ascending by shutdown order and free of duplicates**, in every
@@ -676,6 +689,14 @@ theorem C20_skeleton_type_OrderedDaemon : skel_type_OrderedDaemon =
      "stoppedCtxCancel context.CancelFunc", "stopOnce sync.Once", "workers map[string]*worker",
      "shutdownOrderWorker []string", "wgPerSameShutdownOrder map[int]*sync.WaitGroup", "runningWorkers int",
      "workersDone *sync.Cond", "lock syncutils.RWMutex", "logger log.Logger"] := by decide
+
+/-- The package's `Daemon` interface (app/daemon/interfaces.go, what `app` programs against; the harness drives every
+instance through it) and the handler type. -/
+theorem C20_skeleton_type_Daemon : skel_type_Daemon =
+    ["interface{GetRunningBackgroundWorkers()[]stringBackgroundWorker(namestring,handlerWorkerFunc,order...int)errorDebugLogger(loggerlog.Logger)Start()Run()Shutdown()ShutdownAndWait()IsRunning()boolIsStopped()boolContextStopped()context.Context}"] := by
+  rfl
+
+theorem C20_skeleton_type_WorkerFunc : skel_type_WorkerFunc = ["func(ctxcontext.Context)"] := by decide
 
 theorem C20_skeleton_type_worker : skel_type_worker =
     ["struct", "ctx context.Context", "ctxCancel context.CancelFunc", "handler WorkerFunc", "running atomic.Bool",
